@@ -111,8 +111,110 @@ def ret_p_vc(batch_first):
                            "float arithmetic treated as real arithmetic (under/overflow of the discount factors is the bounded driver's: KF-C18-2)", "one skolem batch element; tensors as index functions (vf/pyvc/symtensor.py)"])
 
 
+def mvn_accumulate_vc(first):
+    """P rung: MeanVarianceNormalization.accumulate for a SYMBOLIC number of frames T and coefficients X (feature dimension last):
+    the state is additive - count += T, sum[i] += SUM_t x[t, i], sumsq[i] += SUM_t x[t, i]^2 - whatever was accumulated before
+    (first call: starts from zero). Statistics over any partition, in any order, are therefore those of the pooled sums."""
+    import pydrobert.torch._feats as FT
+    from vf.pyvc import symtensor as stn
+
+    T, X, I0 = z3.Ints("T X i0")
+    XF = z3.Function("x", z3.IntSort(), z3.IntSort(), z3.RealSort())
+    C0 = z3.Real("count_before")
+    S0 = z3.Function("sum_before", z3.IntSort(), z3.RealSort())
+    Q0 = z3.Function("sumsq_before", z3.IntSort(), z3.RealSort())
+    name = "MeanVarianceNormalization.accumulate[symbolic T, X; %s]" % ("first call" if first else "later call")
+
+    def thunk(I):
+        I.stubs.update(stn.stubs())
+        fields = {"dim": -1, "eps": 1e-5, "mean": None, "std": None}
+        if first:
+            fields.update(count=None, sum=None, sumsq=None)
+        else:
+            fields.update(count=stn.ST((1,), lambda a: C0, "float"), sum=stn.ST((X,), lambda a: S0(ip.to_z3(a)), "float"), sumsq=stn.ST((X,), lambda a: Q0(ip.to_z3(a)), "float"))
+        obj = ip.SObj(FT.MeanVarianceNormalization, fields, "mvn")
+        x = stn.ST((T, X), lambda a, b: XF(ip.to_z3(a), ip.to_z3(b)), "float")
+        I.call(I.getattr(obj, "accumulate"), [x], {})
+        I.ex.ghost["obj"] = obj
+        return obj
+
+    def post(p):
+        if not api.returns(p):
+            return False
+        f, sums = p.ghost["obj"].fields, [x for x in p.ghost.get("sums", []) if x.get("kind") == "sum"]
+        if len(sums) != 2 or not all(hasattr(f.get(k), "elem") for k in ("sum", "sumsq")) or not (hasattr(f.get("count"), "elem") or isinstance(f.get("count"), ct.CT)):
+            return [("two_reductions_and_three_statistics", z3.BoolVal(False))]
+        s1, s2 = sums
+        c0, a0, q0 = (z3.RealVal(0), z3.RealVal(0), z3.RealVal(0)) if first else (C0, S0(I0), Q0(I0))
+        cnt = ip.to_z3(f["count"].elem(0) if hasattr(f["count"], "elem") else f["count"].a.reshape(-1)[0])
+        cnt = z3.ToReal(cnt) if z3.is_int(cnt) else cnt
+        return [("count_grows_by_the_number_of_frames", cnt == c0 + z3.ToReal(T)),
+                ("sum_grows_by_the_sum_over_the_frames", z3.And(s1["T"] == T, ip.to_z3(f["sum"].elem(I0)) == a0 + s1["S"](I0, T), ip.to_z3(s1["val"]([I0], z3.Int("t_q"))) == XF(z3.Int("t_q"), I0))),
+                ("sumsq_grows_by_the_sum_of_squares", z3.And(s2["T"] == T, ip.to_z3(f["sumsq"].elem(I0)) == q0 + s2["S"](I0, T), ip.to_z3(s2["val"]([I0], z3.Int("t_q"))) == XF(z3.Int("t_q"), I0) * XF(z3.Int("t_q"), I0))),
+                ("shapes", z3.And(z3.BoolVal(len(f["sum"].shape) == 1 and len(f["sumsq"].shape) == 1), ip.to_z3(f["sum"].shape[0]) == X, ip.to_z3(f["sumsq"].shape[0]) == X))]
+
+    return VC("C18.P.mvn_state_is_additive", name, "pydrobert.torch._feats", "MeanVarianceNormalization.accumulate", thunk, pre=[T >= 0, X >= 1, 0 <= I0, I0 < X], posts=[("additive_state", post)],
+              inputs={"T": T, "X": X}, timeout_ms=30000,
+              assumptions=["sum over a symbolic extent = partial sums (assumed contract); tensors as index functions with in-place arithmetic as functional updates (vf/pyvc/symtensor.py)",
+                           "input of shape (T, X) with the feature dimension last; other layouts: bounded driver; float64 arithmetic treated as real arithmetic"])
+
+
+def mvn_store_vc(bessel, delete_stats):
+    """P rung: MeanVarianceNormalization.store for symbolic accumulated statistics: raises iff fewer than 1 (2 with Bessel's
+    correction) frames were counted; otherwise mean = sum / count and std = sqrt(max(sumsq / count - mean^2 [* count / (count - 1)], 0));
+    the accumulated statistics are dropped iff asked."""
+    import pydrobert.torch._feats as FT
+    from vf.pyvc import symtensor as stn
+
+    X, I0 = z3.Ints("X i0")
+    C = z3.Real("count")
+    SM = z3.Function("sum", z3.IntSort(), z3.RealSort())
+    SQ = z3.Function("sumsq", z3.IntSort(), z3.RealSort())
+    name = "MeanVarianceNormalization.store[symbolic X and statistics; bessel=%s, delete_stats=%s]" % (bessel, delete_stats)
+
+    def thunk(I):
+        I.stubs.update(stn.stubs())
+        obj = ip.SObj(FT.MeanVarianceNormalization, {"dim": -1, "eps": 1e-5, "mean": None, "std": None, "count": stn.ST((1,), lambda a: C, "float"),
+                                                    "sum": stn.ST((X,), lambda a: SM(ip.to_z3(a)), "float"), "sumsq": stn.ST((X,), lambda a: SQ(ip.to_z3(a)), "float")}, "mvn")
+        I.ex.ghost["obj"] = obj
+        I.call(I.getattr(obj, "store"), [], {"delete_stats": delete_stats, "bessel": bessel})
+        return obj
+
+    need = 2 if bessel else 1
+
+    def post(p):
+        f = p.ghost["obj"].fields
+        if api.raises(p, "RuntimeError"):
+            return [("raises_only_with_too_few_frames", C < need)]
+        if not api.returns(p):
+            return False
+        if not (hasattr(f.get("mean"), "elem") and hasattr(f.get("std"), "elem")):
+            return [("mean_and_std_stored", z3.BoolVal(False))]
+        mean, std = ip.to_z3(f["mean"].elem(I0)), ip.to_z3(f["std"].elem(I0))
+        var = SQ(I0) / C - (SM(I0) / C) * (SM(I0) / C)
+        if bessel:
+            var = var * (C / (C - 1))
+        # the stored value is sqrt(argument): the assumed contract of sqrt at that argument, then the argument is the clamped variance
+        is_sqrt = z3.is_app(std) and std.decl().eq(stn.SQRT)
+        arg = std.arg(0) if is_sqrt else z3.RealVal(0)
+        sqrt_contract = z3.Implies(arg >= 0, z3.And(std >= 0, std * std == arg))
+        goals = [("returns_only_with_enough_frames", C >= need), ("mean_is_sum_over_count", mean == SM(I0) / C),
+                 ("std_is_a_square_root", z3.BoolVal(bool(is_sqrt))), ("its_argument_is_the_clamped_variance", arg == z3.If(var >= 0, var, 0)),
+                 ("std_is_the_root_of_the_clamped_variance", z3.Implies(z3.And(sqrt_contract, arg == z3.If(var >= 0, var, 0)), z3.And(std >= 0, std * std == z3.If(var >= 0, var, 0)))),
+                 ("statistics_dropped_iff_asked", z3.BoolVal(all((f.get(k) is None) == delete_stats for k in ("count", "sum", "sumsq"))))]
+        return goals
+
+    return VC("C18.P.mvn_store_formula", name, "pydrobert.torch._feats", "MeanVarianceNormalization.store", thunk, pre=[X >= 1, 0 <= I0, I0 < X, C >= 0], posts=[("population_moments", post)],
+              inputs={"X": X, "count": C}, timeout_ms=30000,
+              assumptions=["sqrt on non-negative reals: sqrt(x) >= 0 and sqrt(x)^2 = x (assumed contract); float64 arithmetic treated as real arithmetic", "tensors as index functions (vf/pyvc/symtensor.py)"])
+
+
 def p_vcs(ctx):
     return [ret_p_vc(False), ret_p_vc(True)]
+
+
+def mvn_p_vcs(ctx):
+    return [mvn_accumulate_vc(True), mvn_accumulate_vc(False)] + [mvn_store_vc(b, d) for b in (False, True) for d in (True, False)]
 
 
 def vcs(ctx):
